@@ -427,6 +427,12 @@ func (t *smtpTS) EvalBool(v ssa.Value, c eng.TSConfig) (bool, bool) {
 	return false, false
 }
 
+// ResolveCallees: a function taken from a package-level table under a key the configuration does
+// not determine (a mechanism name, a command word): any of them.
+func (t *smtpTS) ResolveCallees(call *ssa.Call, c eng.TSConfig) []*ssa.Function {
+	return eng.TableCallees(call.Call.Value)
+}
+
 // ResolveCallee: a handler taken from a package-level table keyed by the session state.
 func (t *smtpTS) ResolveCallee(call *ssa.Call, c eng.TSConfig) *ssa.Function {
 	return eng.TableCallee(call.Call.Value, func(idx ssa.Value) (int64, bool) {
